@@ -169,13 +169,15 @@ def __getitem__(self, keep):
         start, stop, stride = keep_head.indices(len(self))
         if __H11__:
             raise IndexError(__ANY__)
+        stop = __H19__
         chunks = []
         for ind in range(__H12__, __H13__):
             chunk_start = __H14__
             chunk_stop = __H15__
             if __H16__:
                 continue
-            chunks.append(self.indexers[ind][tuple([slice(chunk_start, chunk_stop, stride)] + keep_tail)].reshape(tuple([-1] + shape_tails)))
+            chunk = self.indexers[ind][tuple([slice(chunk_start, chunk_stop, stride)] + keep_tail)]
+            chunks.append(chunk.reshape(tuple([len(chunk)] + shape_tails)))
         out_data = np.concatenate(chunks)
     else:
         keep_head = np.atleast_1d(keep_head)
@@ -184,7 +186,8 @@ def __getitem__(self, keep):
             for ind in range(len(self.indexers)):
                 chunk_start = indexer_starts[ind]
                 chunk_stop = indexer_starts[ind + 1] if ind < len(indexer_starts) - 1 else len(self)
-                chunks.append(self.indexers[ind][tuple([keep_head[chunk_start:chunk_stop]] + keep_tail)].reshape(tuple([-1] + shape_tails)))
+                chunk = self.indexers[ind][tuple([keep_head[chunk_start:chunk_stop]] + keep_tail)]
+                chunks.append(chunk.reshape(tuple([len(chunk)] + shape_tails)))
             out_data = np.concatenate(chunks)
         else:
             keep_head = __H17__
